@@ -93,6 +93,32 @@ the BIP144 marker. Same in Bitcoin Core; recorded, not a finding. -/
 theorem tx_zero_inputs_not_representable :
     (tx .witness).dec ((tx .witness).enc (1, [], [], [], 0)) = .error .badValue := by decide
 
+/-- `DeserializeNoWitness(SerializeNoWitness(t))` is `t` without its witness data, for every transaction of
+either domain; the txid is the same (`txid_ignores_witness`). -/
+theorem noWitness_roundtrip (e : TxEnc) (t : Tx) (r : Bytes) (h : (tx e).wf t) :
+    (tx .base).dec ((tx .base).enc t ++ r) = .ok (stripWitness t, r) ∧ txid (stripWitness t) = txid t := by
+  have hd := stripWitness_domain e t ((tx_wf_iff e t).mp h)
+  have hw := (tx_wf_iff .base (stripWitness t)).mpr hd
+  rw [enc_base_strip]
+  exact ⟨(tx_lawful .base).dec_enc _ r hw, rfl⟩
+
+/-- `SerializeSizeStripped` is the length of `SerializeNoWitness` -/
+theorem sizeStripped_eq (e : TxEnc) (t : Tx) (h : (tx e).wf t) :
+    (tx .base).size t = ((tx .base).enc t).length := by
+  have hd := stripWitness_domain e t ((tx_wf_iff e t).mp h)
+  have hw := (tx_wf_iff .base (stripWitness t)).mpr hd
+  have := (tx_lawful .base).size_eq _ hw
+  rw [enc_base_strip]
+  exact this
+
+/-- `TxLoc` / `DeserializeTxLoc`: transaction i of a block occupies `[start, start + len)` of the serialized
+block, with `start = 80 + |varint count| + Σ lengths of the earlier transactions` and `len` its own encoded
+length (= `SerializeSize` on the domain, `tx_size`). -/
+theorem txLoc_slice (e : TxEnc) (hdr : BlockHeader) (pre post : List Tx) (x : Tx) (hh : blockHeader.wf hdr) :
+    (((block e).enc (hdr, pre ++ x :: post)).drop
+        (80 + varintSize (pre ++ x :: post).length + (encList (tx e) pre).length)).take ((tx e).enc x).length
+      = (tx e).enc x := block_tx_slice e hdr pre post x hh
+
 /-! ### identifiers -/
 
 /-- `TxHash` does not look at witness data -/
